@@ -449,3 +449,26 @@ Theorem C14_more_counts_spark : forall col uni m rnd fmt rlim clim st a t' tm' o
   nth_error tm' (tw_active t') = Some (more_note col (Z.of_nat (length (skipn rlim (a_rows a))))) /\ off = 1%nat.
 Proof. exact spark_more_rows. Qed.
 Print Assumptions C14_more_counts_spark.
+
+(* bar graph fed frame by frame as `rare bargraph` feeds it (SetKeys, then one WriteBar per row,
+   every frame): the model keeps the values BY VALUE (after the repair C14-bargraph-live-slices the
+   renderer copies them), and an accepted final screen shows, for the last WriteBar of every row
+   of the last frame, the bar(s) of the last values against the FINAL maximum and the formatted
+   number(s) — "bars grow with the value / displayed numbers equal the aggregated numbers". *)
+Theorem C14_check_bargf_sound : forall c size stacked mx nk prefix lines ops,
+  bg_rows_ok c size stacked mx nk prefix lines ops = true ->
+  forall pre idx key vals post, ops = pre ++ BBar idx key vals :: post -> last_for_idx idx post = true ->
+    if stacked then
+      exists bar h, bar_stacked (c_col c) (c_uni c) mx size vals = Ok bar /\
+        nth (idx + prefix) lines [] = h ++ SP :: SP :: vis (c_col c) (bar ++ [SP; SP] ++ fmt_of (c_fk c) (zsum vals) 0%Z mx)
+    else forall i v, nth_error vals i = Some v ->
+      exists gc bar h, group_color (0 + i) = Ok gc /\
+        bar_write (c_uni c) round53 (scale (m_of (c_mp c)) round53 v 0%Z mx) size = Ok bar /\
+        nth (prefix + idx * nk + (0 + i)) lines [] =
+          h ++ SP :: vis (c_col c) (cwrite (c_col c) gc bar ++ [SP] ++ fmt_of (c_fk c) v 0%Z mx).
+Proof.
+  intros c size stacked mx nk prefix lines ops H pre idx key vals post E L.
+  pose proof (bg_rows_sound c size stacked mx nk prefix lines ops H pre idx key vals post E L) as S.
+  destruct stacked. exact S. intros i v Hn. apply (grouped_tails_sound _ _ _ _ _ _ _ S i v Hn).
+Qed.
+Print Assumptions C14_check_bargf_sound.
